@@ -25,6 +25,11 @@ pub fn set_role(role: u32) {
     ROLE.with(|r| r.set(role));
 }
 
+/// The role of the calling thread.
+pub fn role() -> u32 {
+    current_role()
+}
+
 fn current_role() -> u32 {
     let r = ROLE.with(|r| r.get());
     if r != 0 {
